@@ -32,7 +32,8 @@ TRUSTED_BASE = [
     "axioms: none declared; Print Assumptions of every property theorem is recorded under 'axioms'",
     "harness/gen_tables.py (fail-closed translator of data tables from the live /repo modules)",
     "extraction: ExtrOcamlBasic only (no Extract Constant / other Extract Inductive), N/Z/positive stay Coq datatypes",
-    "runner/driver.ml (byte I/O + int<->N conversion), cross-checked each run by Eval vm_compute on sampled cases",
+    "runner/driver.ml (byte I/O + int<->N conversion), cross-checked each run by Eval vm_compute on sampled cases; the wire format is "
+    "proved lossless (Base/WireFacts.v: decode (enc v) = Some v) and the stack-safe encoder equal to enc (Base/WireFast.v)",
     "correspondence harness (generators, adapters calling pycfmodel's public API, canonicalisation, shrinker)",
     "CPython 3.12.1, pydantic 2.7.3, ipaddress/json/re/base64/unicodedata (leaf oracles, see DESIGN.md section 5)",
 ]
